@@ -278,8 +278,11 @@ def _rn_indirect_nullable_tail(v, ctx):
     rules = G.read_rules(text)
     nullable = G.nullable_of(rules)
     direct = {n for n, alts in rules.items() if any(len(a) == 0 for a in alts)}
-    vec_helpers = {n for n, alts in rules.items() if len(alts) == 2 and len(alts[0]) == 2 and alts[0][0] == n
-                   and alts[1] == alts[0][1:] and n.endswith("1")}
+    strs = G.string_terminals(text)
+    # X1: X1 X | X  and  X1: X1 Sep X | X with a separator without content are vectors
+    vec_helpers = {n for n, alts in rules.items() if len(alts) == 2 and n.endswith("1") and alts[0][0] == n
+                   and alts[1] == alts[0][-1:]
+                   and (len(alts[0]) == 2 or (len(alts[0]) == 3 and (alts[0][1] in strs or alts[0][1].startswith(("'", '"')))))}
     for n, alts in rules.items():
         for a in alts:
             for d in range(0, len(a)):
@@ -307,9 +310,9 @@ def _dup_kind_across_rules(v, ctx):
         m_ = re.search(r"the name `(\w+)` is defined multiple times", e["msg"]) if e["code"] == "E0428" else None
         if m_:
             dup.add(m_.group(1))
-    # every other complaint has to be about one of the doubly defined types
-    if not dup or not all(e["file"] == "g_actions" and (e["code"] == "E0428" or any(
-            re.search(r"\b%s\b" % d_, e["msg"]) for d_ in dup)) for e in errs):
+    # what else rustc says about the actions file follows from the double definitions (fields of
+    # the "wrong" struct, conflicting derives, recursion through it)
+    if not dup or not all(e["file"] == "g_actions" for e in errs):
         return False
     text = ctx.grammar(v["stage"], v["id"])
     text = re.sub(r"/\*.*?\*/", " ", text, flags=re.S)
@@ -323,12 +326,15 @@ def _dup_kind_across_rules(v, ctx):
         name = re.sub(r"\{.*?\}", " ", head, flags=re.S).split()
         if not name:
             continue
-        for group in re.findall(r"\{(.*?)\}", body, flags=re.S):
+        # kinds given for the whole rule (inherited by its productions) and per production
+        for group in re.findall(r"\{(.*?)\}", head, flags=re.S) + re.findall(r"\{(.*?)\}", body, flags=re.S):
             for part in group.split(","):
                 part = part.strip()
                 if re.fullmatch(r"[A-Za-z_]\w*", part) and part not in words:
                     owners.setdefault(part, set()).add(name[-1])
-    return all(len(owners.get(d_, ())) > 1 for d_ in dup)
+    def kind_of(d_):
+        return d_ if d_ in owners else (d_[:-4] if d_.endswith("Base") and d_[:-4] in owners else d_)
+    return all(len(owners.get(kind_of(d_), ())) > 1 for d_ in dup)
 
 
 def known_match(prop, v, ctx):
